@@ -392,6 +392,42 @@ Definition extract_word (l : list Z) : ext (list Z) :=
 (* the value just read is followed by white space or by the end of the text *)
 Definition delimited (rest : list Z) : bool := match rest with [] => true | c :: _ => is_space c end.
 
+(* `is >> sep` for a char that must be c: skips white space, reads one character *)
+Definition expect_char (c : Z) (l : list Z) : option (list Z) :=
+  match skip_space l with x :: t => if x =? c then Some t else None | [] => None end.
+
+(* after the '(' : n numbers separated by ',' (operator>> of rvector, quaternion, vector1d) *)
+Fixpoint tuple_items (n : nat) (l : list Z) : option (list dec * list Z) :=
+  match n with
+  | O => Some ([], l)
+  | S m =>
+    match skip_space l with
+    | [] => None
+    | c :: t =>
+      match extract_real (c :: t) with
+      | ExtFail => None
+      | ExtOk v r =>
+        match m with
+        | O => Some ([v], r)
+        | S _ => match expect_char 44 r with
+                 | None => None
+                 | Some r' => match tuple_items m r' with Some (vs, r2) => Some (v :: vs, r2) | None => None end
+                 end
+        end
+      end
+    end
+  end.
+
+(* `is >> x` for a 3-vector "( x , y , z )" (n = 3), a quaternion (n = 4), a vector value of n entries *)
+Definition extract_tuple (n : nat) (l : list Z) : ext (list dec) :=
+  match expect_char 40 l with
+  | None => ExtFail
+  | Some l1 => match tuple_items n l1 with
+               | None => ExtFail
+               | Some (vs, r) => match expect_char 41 r with Some r' => ExtOk vs r' | None => ExtFail end
+               end
+  end.
+
 Section Values.
   Context {A : Type}.
   Variable extract : list Z -> ext A.
@@ -531,12 +567,17 @@ Definition check_keywords (allowed : list (list Z)) (conf : list Z) (rs : list k
 
 (* ---------------------------------------------------------------- a generic client: flat schema *)
 
-Inductive kind := KReal | KInt | KBool | KString | KRealVec | KRealVecN (n : nat) | KBlock.
+Inductive kind := KReal | KInt | KBool | KString | KRealVec | KRealVecN (n : nat) | KBlock
+| KTuple (n : nat)               (* cvm::rvector (3), cvm::quaternion (4), colvarvalue of type vector (n) *)
+| KReq (k : kind).               (* the same keyword looked up with parse_required *)
+
+Fixpoint base_kind (k : kind) : kind := match k with KReq k' => base_kind k' | _ => k end.
+Definition is_required (k : kind) : bool := match k with KReq _ => true | _ => false end.
 
 Inductive value :=
 | VNotGiven
 | VReal (d : dec) | VInt (z : Z) | VBool (b : bool) | VString (s : list Z)
-| VReals (l : list dec) | VBlocks (l : list (list Z))
+| VReals (l : list dec) | VBlocks (l : list (list Z)) | VTuple (l : list dec)
 | VBad.                                           (* an error was raised for this keyword *)
 
 Record pstate := { ps_allowed : list (list Z); ps_regs : list kl_reg; ps_err : bool; ps_oof : bool;
@@ -544,7 +585,8 @@ Record pstate := { ps_allowed : list (list Z); ps_regs : list kl_reg; ps_err : b
 
 (* strict = the repaired _get_keyval_scalar_value_ / _get_keyval_vector_; otherwise the pinned ones *)
 Definition get_keyval (strict : bool) (conf : list Z) (st : pstate) (kk : list Z * kind) : pstate :=
-  let '(key, k) := kk in
+  let '(key, k0) := kk in
+  let k := base_kind k0 in
   let r := key_string_values conf key in
   let multi := (1 <? ksv_count r)%nat in
   let data := ksv_data r in
@@ -572,13 +614,18 @@ Definition get_keyval (strict : bool) (conf : list Z) (st : pstate) (kk : list Z
         | KRealVecN n => match (if strict then vector_fixed extract_real n data
                                 else vector_fixed_lenient extract_real n data)
                          with VAccept l => (VReals l, false) | VReject => (VBad, true) end
+        | KTuple n => match (if strict then scalar_value (extract_tuple n) data else scalar_value_lenient (extract_tuple n) data)
+                      with SAccept l => (VTuple l, false) | SReject => (VBad, true) end
         | KBlock => (VBad, true)
+        | KReq _ => (VBad, true)
         end
       end
     end in
   {| ps_allowed := ps_allowed st ++ [to_lower key];
      ps_regs := ps_regs st ++ ksv_regs r;
-     ps_err := ps_err st || ksv_err r || (match k with KBlock => false | _ => multi end) || bad;
+     (* error_key_required: a keyword looked up with parse_required must be present *)
+     ps_err := ps_err st || ksv_err r || (match k with KBlock => false | _ => multi end) || bad ||
+               (is_required k0 && negb (ksv_found r));
      ps_oof := ps_oof st || ksv_oof r;
      ps_values := ps_values st ++ [v] |}.
 
